@@ -1,4 +1,370 @@
-/- C14 — property theorems (stub; filled in by the owning work package). -/
-import Rdm.Basic
+/-
+  C14 — generated aspiration levels follow the documented series and end.
+  Property theorems only (helper lemmas: Rdm/Lemmas/HeurLevels.lean).  Arithmetic over `Rat`.
+
+  Model: Rdm/Model/Levels.lean (`coefValid`, `coefInitial`, `coefHasNext`, `coefUpdate`, `coefSeries`
+  with fuel `coefFuel`, `thresholdFor`, `coefLevels`, `explicitLevels`, `findSource`, `levelsOf`);
+  spec evaluated on the implementation's output: Rdm/Spec/C14.lean.
+-/
+import Rdm.Model.Levels
+import Rdm.Model.Heuristics
+import Rdm.Spec.C14
+import Rdm.Lemmas.NumRat
+import Rdm.Lemmas.HeurLevels
+import Rdm.Lemmas.HeurLevelsSpec
+import Mathlib.Tactic.Linarith
+import Mathlib.Tactic.Tauto
+import Mathlib.Tactic.NormNum
+set_option linter.unusedSimpArgs false
 namespace Rdm.Props.C14
+open Rdm
+
+/-! ### validation -/
+
+/-- `Validate` accepts exactly the documented ranges: coefficient in (0,1); minValue, maxValue in
+    [0,1] for the increasing series and in (0,1] for the decreasing ones -/
+theorem validation_accepts_exactly_documented_ranges (k : CoefKind) (c mx mn : Rat) :
+    coefValid k c mx mn = true ↔
+      (0 < c ∧ c < 1 ∧ (if k.inc = true then 0 ≤ mn ∧ mn ≤ 1 ∧ 0 ≤ mx ∧ mx ≤ 1
+                        else 0 < mn ∧ mn ≤ 1 ∧ 0 < mx ∧ mx ≤ 1)) := by
+  unfold coefValid
+  simp only [Num.zero_rat, Num.one_rat]
+  by_cases hk : k.inc = true <;> simp [hk] <;> constructor <;> intro h
+  all_goals (refine ⟨?_, ?_, ?_⟩ <;> tauto)
+
+/-- the validity predicate of the spec (property text) is the model's `Validate` -/
+theorem spec_valid_eq_model_valid (k : CoefKind) (c mx mn : Rat) :
+    Spec.C14.valid k.inc c mx mn = coefValid k c mx mn := by
+  rw [Bool.eq_iff_iff, validation_accepts_exactly_documented_ranges]
+  unfold Spec.C14.valid
+  by_cases hk : k.inc = true <;> simp [hk] <;> tauto
+
+/-- out-of-range parameters are rejected: no level is handed out -/
+theorem invalid_parameters_rejected (k : CoefKind) (d : DMP Rat) (c mx mn : Rat)
+    (h : coefValid k c mx mn = false) : ∃ e, coefLevels k d c mx mn = Except.error e := by
+  unfold coefLevels coefValidate
+  simp [h]
+
+/-- … and documented parameters are accepted (given that every alternative has every value):
+    the levels are the documented ratios mapped through the threshold formula -/
+theorem valid_parameters_accepted (k : CoefKind) (d : DMP Rat) (c mx mn : Rat)
+    (h : coefValid k c mx mn = true) (ranges : List (Crit Rat × (Rat × Rat)))
+    (hr : criteriaRanges d = Except.ok ranges) :
+    ∃ rs, coefSeries k c mx mn (coefFuel k c mx mn) (coefInitial k mx mn) = Except.ok rs ∧
+      coefLevels k d c mx mn = Except.ok (rs.map (levelAt ranges)) := by
+  obtain ⟨rs, hs⟩ := coefSeries_fuel_ok k c mx mn h
+  refine ⟨rs, hs, ?_⟩
+  unfold coefLevels coefValidate
+  simp [h, hr, hs]
+
+/-- the spec's verdict on a refusal: fine iff the parameters are outside the documented ranges -/
+theorem spec_on_refusal (k : CoefKind) (c mx mn : Rat) (crits : List (Crit Rat)) (all : List (Alt Rat)) :
+    Spec.C14.check k c mx mn crits all none = !coefValid k c mx mn := by
+  unfold Spec.C14.check Spec.C14.explain
+  rw [spec_valid_eq_model_valid]
+  cases coefValid k c mx mn <;> simp
+
+/-! ### the series -/
+
+/-- start value and recurrence: a successful run of the model is exactly the documented series
+    `r₀ = initial`, `r ↦ next r` while `continues r` (as re-stated in Spec/C14.lean) -/
+theorem series_follows_documented_recurrence (k : CoefKind) (c mx mn : Rat) (n : Nat) (rs : List Rat)
+    (h : coefSeries k c mx mn n (coefInitial k mx mn) = Except.ok rs) :
+    Spec.C14.ideal k c mx mn (rs.length + 1) (if k.inc then mn else mx) = rs := by
+  have := coefSeries_eq_ideal h (rs.length + 1) (Nat.lt_succ_self _)
+  simpa [coefInitial] using this
+
+/-- increasing series (aspect elimination): strictly increasing ratios, all in `[minValue, maxValue)` -/
+theorem increasing_series_strictly_monotone (k : CoefKind) (hk : k.inc = true) (c mx mn : Rat)
+    (hv : coefValid k c mx mn = true) (n : Nat) (rs : List Rat)
+    (h : coefSeries k c mx mn n (coefInitial k mx mn) = Except.ok rs) :
+    rs.Pairwise (· < ·) ∧ ∀ r ∈ rs, mn ≤ r ∧ r < mx := by
+  have hv' := (validation_accepts_exactly_documented_ranges k c mx mn).mp hv
+  simp [hk] at hv'
+  obtain ⟨hc, _, hmn0, _, _, hmx1⟩ := hv'
+  have := coefSeries_inc_sorted hk hc hmx1 (cur := coefInitial k mx mn) (by simpa [coefInitial, hk] using hmn0) h
+  simpa [coefInitial, hk] using this
+
+/-- decreasing series (satisfaction): strictly decreasing ratios, all in `(minValue, maxValue]` -/
+theorem decreasing_series_strictly_monotone (k : CoefKind) (hk : k.inc = false) (c mx mn : Rat)
+    (hv : coefValid k c mx mn = true) (n : Nat) (rs : List Rat)
+    (h : coefSeries k c mx mn n (coefInitial k mx mn) = Except.ok rs) :
+    rs.Pairwise (· > ·) ∧ ∀ r ∈ rs, r ≤ mx ∧ mn < r := by
+  have hv' := (validation_accepts_exactly_documented_ranges k c mx mn).mp hv
+  simp [hk] at hv'
+  obtain ⟨hc, hc1, hmn0, _, _, _⟩ := hv'
+  have := coefSeries_dec_sorted hk hc hc1 hmn0 h
+  simpa [coefInitial, hk] using this
+
+/-- **termination / fuel sufficiency**: for every validated parameter set the series ends within
+    `coefFuel` steps — `⌊1/c⌋ + 2` for the additive, subtractive and multiplied-increasing rules,
+    `⌊max/(min·(1−c))⌋ + 2` for the multiplied-decreasing rule -/
+theorem fuel_suffices (k : CoefKind) (c mx mn : Rat) (hv : coefValid k c mx mn = true) :
+    ∃ rs, coefSeries k c mx mn (coefFuel k c mx mn) (coefInitial k mx mn) = Except.ok rs ∧
+      rs.length ≤ coefFuel k c mx mn := by
+  obtain ⟨rs, h⟩ := coefSeries_fuel_ok k c mx mn hv
+  exact ⟨rs, h, coefSeries_length_le h⟩
+
+/-- the length bound in the documented form -/
+theorem series_length_bound (k : CoefKind) (hk : k ≠ .decMul) (c mx mn : Rat) (hv : coefValid k c mx mn = true) :
+    ∃ rs, coefSeries k c mx mn (coefFuel k c mx mn) (coefInitial k mx mn) = Except.ok rs ∧
+      (rs.length : Int) ≤ (1 / c : Rat).floor + 2 := by
+  obtain ⟨rs, h, hl⟩ := fuel_suffices k c mx mn hv
+  refine ⟨rs, h, ?_⟩
+  have hc : 0 < c := ((validation_accepts_exactly_documented_ranges k c mx mn).mp hv).1
+  have h0 : 0 ≤ (1 / c : Rat).floor := Rat.le_floor_iff.mpr (by simp; positivity)
+  have : coefFuel k c mx mn = (1 / c : Rat).floor.toNat + 2 := by
+    cases k <;> simp_all [coefFuel]
+  rw [this] at hl
+  have h2 : (((1 / c : Rat).floor.toNat : Nat) : Int) = (1 / c : Rat).floor := Int.toNat_of_nonneg h0
+  omega
+
+/-- more fuel never changes the result -/
+theorem series_independent_of_extra_fuel (k : CoefKind) (c mx mn : Rat) (n m : Nat) (cur : Rat) (rs rs' : List Rat)
+    (h : coefSeries k c mx mn n cur = Except.ok rs) (h' : coefSeries k c mx mn m cur = Except.ok rs') :
+    rs = rs' := by
+  have a := coefSeries_eq_ideal h (rs.length + rs'.length + 1) (by omega)
+  have b := coefSeries_eq_ideal h' (rs.length + rs'.length + 1) (by omega)
+  exact a.symm.trans b
+
+/-- first level when `min ≥ max`: the increasing series is empty -/
+theorem increasing_series_empty_when_min_ge_max (k : CoefKind) (hk : k.inc = true) (c mx mn : Rat)
+    (h : mx ≤ mn) (n : Nat) : coefSeries k c mx mn n (coefInitial k mx mn) = Except.ok [] := by
+  have hn : coefHasNext k mx mn (coefInitial k mx mn) = false := by
+    rw [coefHasNext_rat]; simp [hk, coefInitial]; exact h
+  cases n <;> simp [coefSeries_zero, coefSeries_succ, hn]
+
+/-- … and so is the decreasing one when `max ≤ min` -/
+theorem decreasing_series_empty_when_max_le_min (k : CoefKind) (hk : k.inc = false) (c mx mn : Rat)
+    (h : mx ≤ mn) (n : Nat) : coefSeries k c mx mn n (coefInitial k mx mn) = Except.ok [] := by
+  have hn : coefHasNext k mx mn (coefInitial k mx mn) = false := by
+    rw [coefHasNext_rat]; simp [hk, coefInitial]; exact h
+  cases n <;> simp [coefSeries_zero, coefSeries_succ, hn]
+
+/-- closed forms of the README for the ratios actually handed out:
+    `(1+min)(1+c)ⁱ − 1`, `min + i·c`, `max·cⁱ`, `max − i·c` (the clamps are never active on them) -/
+theorem series_closed_form (k : CoefKind) (c mx mn : Rat) (hv : coefValid k c mx mn = true) (n : Nat)
+    (rs : List Rat) (h : coefSeries k c mx mn n (coefInitial k mx mn) = Except.ok rs)
+    (i : Nat) (hi : i < rs.length) :
+    rs[i] = closedForm k c (coefInitial k mx mn) i := by
+  have hv' := (validation_accepts_exactly_documented_ranges k c mx mn).mp hv
+  apply coefSeries_closed_form _ _ h i hi
+  · intro hk; simp [hk] at hv'; exact hv'.2.2.2.2.2
+  · intro hk; simp [hk] at hv'; exact hv'.2.2.1.le
+
+/-- the series passes the series-level clauses of the spec checker: the ideal series of the spec is
+    strictly monotone and has exactly as many elements as levels are handed out -/
+theorem model_series_passes_spec_clauses (k : CoefKind) (c mx mn : Rat) (hv : coefValid k c mx mn = true)
+    (n : Nat) (rs : List Rat) (h : coefSeries k c mx mn n (coefInitial k mx mn) = Except.ok rs) :
+    let ideal := Spec.C14.ideal k c mx mn (rs.length + 1) (if k.inc then mn else mx)
+    Spec.C14.strictMono k.inc ideal = true ∧ ideal.length = rs.length := by
+  intro ideal
+  have hi : ideal = rs := series_follows_documented_recurrence k c mx mn n rs h
+  rw [hi]
+  refine ⟨?_, rfl⟩
+  have key : ∀ (inc : Bool) (l : List Rat), (if inc then l.Pairwise (· < ·) else l.Pairwise (· > ·)) →
+      Spec.C14.strictMono inc l = true := by
+    intro inc l
+    induction l with
+    | nil => intro _; simp [Spec.C14.strictMono]
+    | cons a t ih =>
+      intro hp
+      cases t with
+      | nil => simp [Spec.C14.strictMono]
+      | cons b t' =>
+        cases inc
+        · simp only [Bool.false_eq_true, if_false] at hp ih
+          have hab : b < a := (List.pairwise_cons.mp hp).1 b (by simp)
+          simp [Spec.C14.strictMono, hab, ih (List.pairwise_cons.mp hp).2]
+        · simp only [if_true] at hp ih
+          have hab : a < b := (List.pairwise_cons.mp hp).1 b (by simp)
+          simp [Spec.C14.strictMono, hab, ih (List.pairwise_cons.mp hp).2]
+  apply key
+  by_cases hk : k.inc = true
+  · simp [hk]; exact (increasing_series_strictly_monotone k hk c mx mn hv n rs h).1
+  · have hk' : k.inc = false := by simpa using hk
+    simp [hk']; exact (decreasing_series_strictly_monotone k hk' c mx mn hv n rs h).1
+
+/-! ### the model's levels pass the checker that is evaluated on the implementation's output -/
+
+/-- **`Spec.C14.check (model output) = true`**: for every validated parameter set, every set of
+    criteria with pairwise different ids and ranges with `min ≤ max`, the list of levels the model
+    generates passes every clause of the checker the driver runs on Go's levels (count, strict
+    monotonicity of the ratios, threshold formula, direction of movement) -/
+theorem model_levels_pass_spec (k : CoefKind) (d : DMP Rat) (c mx mn : Rat) (lv : List (KMap Rat))
+    (h : coefLevels k d c mx mn = Except.ok lv) (hnd : (d.crit.map (·.id)).Nodup)
+    (hrg : ∀ cr ∈ d.crit, ∀ rg, valuesRange d.all cr = Except.ok rg → rg.1 ≤ rg.2) :
+    Spec.C14.check k c mx mn d.crit d.all (some lv) = true := by
+  -- unpack the model run
+  have hv : coefValid k c mx mn = true := by
+    by_contra hv
+    obtain ⟨e, he⟩ := invalid_parameters_rejected k d c mx mn (by simpa using hv)
+    rw [he] at h; simp at h
+  unfold coefLevels coefValidate at h
+  simp only [hv, if_true] at h
+  obtain ⟨_, _, h⟩ := R.bind_eq_ok h
+  obtain ⟨ranges, hr, h⟩ := R.bind_eq_ok h
+  obtain ⟨rs, hs, h⟩ := R.bind_eq_ok h
+  simp at h; subst h
+  obtain ⟨hranges, hkeys⟩ := criteriaRanges_eq d.crit d.all ranges hr
+  have hndr : (ranges.map (·.1.id)).Nodup := by
+    have : ranges.map (·.1.id) = d.crit.map (·.id) := by rw [← hkeys]; simp
+    rw [this]; exact hnd
+  have hwidth : ∀ p ∈ ranges, p.2.1 ≤ p.2.2 := by
+    -- every pair of `ranges` is (criterion, its range)
+    have : ∀ (crits : List (Crit Rat)) (rgs : List (Crit Rat × (Rat × Rat))),
+        crits.mapM (fun cr => do pure (cr, ← valuesRange d.all cr)) = Except.ok rgs →
+        ∀ p ∈ rgs, p.1 ∈ crits ∧ valuesRange d.all p.1 = Except.ok p.2 := by
+      intro crits
+      induction crits with
+      | nil => intro rgs hh p hp; simp at hh; subst hh; simp at hp
+      | cons x xs ih =>
+        intro rgs hh p hp
+        rw [List.mapM_cons] at hh
+        obtain ⟨q, hq, hh⟩ := R.bind_eq_ok hh
+        obtain ⟨qs, hqs, hh⟩ := R.bind_eq_ok hh
+        obtain ⟨rg, hrg', hq⟩ := R.bind_eq_ok hq
+        simp at hh hq; subst hh; subst hq
+        rcases List.mem_cons.mp hp with rfl | hp
+        · exact ⟨by simp, hrg'⟩
+        · obtain ⟨i1, i2⟩ := ih qs hqs p hp
+          exact ⟨by simp [i1], i2⟩
+    intro p hp
+    obtain ⟨i1, i2⟩ := this d.crit ranges hr p hp
+    exact hrg p.1 i1 p.2 i2
+  -- the series
+  have hideal := series_follows_documented_recurrence k c mx mn _ rs hs
+  obtain ⟨hmono, _⟩ := model_series_passes_spec_clauses k c mx mn hv _ rs hs
+  have hpw : (if k.inc then rs.Pairwise (· < ·) else rs.Pairwise (· > ·)) := by
+    by_cases hk : k.inc = true
+    · simp [hk]; exact (increasing_series_strictly_monotone k hk c mx mn hv _ rs hs).1
+    · have hk' : k.inc = false := by simpa using hk
+      simp [hk']; exact (decreasing_series_strictly_monotone k hk' c mx mn hv _ rs hs).1
+  have hempty : mx ≤ mn → rs = [] := by
+    intro hle
+    by_cases hk : k.inc = true
+    · have := increasing_series_empty_when_min_ge_max k hk c mx mn hle (coefFuel k c mx mn)
+      rw [this] at hs; simpa using hs.symm
+    · have hk' : k.inc = false := by simpa using hk
+      have := decreasing_series_empty_when_max_le_min k hk' c mx mn hle (coefFuel k c mx mn)
+      rw [this] at hs; simpa using hs.symm
+  -- clause by clause
+  unfold Spec.C14.check Spec.C14.explain
+  simp only [spec_valid_eq_model_valid, hv, Bool.not_true, Bool.false_eq_true, if_false, List.length_map]
+  rw [hideal] at hmono ⊢
+  simp only [hmono, Bool.not_true, Bool.false_eq_true, if_false, ne_eq, not_true_eq_false, if_true]
+  have hcl : ((if k.inc = true then decide (mx ≤ mn) else decide (mx ≤ mn)) && !(rs.map (levelAt ranges)).isEmpty) = false := by
+    by_cases hle : mx ≤ mn
+    · simp [hempty hle]
+    · simp [hle]
+  simp only [hcl, Bool.false_eq_true, if_false, hranges]
+  have h1 := levelOk_all ranges hndr rs
+  simp only [h1, Bool.not_true, Bool.false_eq_true, if_false]
+  have h2 := movesOk_levelAt k.inc ranges hndr hwidth rs hpw
+  simp [h2]
+
+/-! ### thresholds -/
+
+/-- a level places every criterion at `min + r·range` (gain) / `max − r·range` (cost) -/
+theorem threshold_formula (cr : Crit Rat) (lo hi r : Rat) :
+    thresholdFor cr (lo, hi) r = if cr.type = "cost" then hi - r * (hi - lo) else lo + r * (hi - lo) := by
+  unfold thresholdFor Crit.isCost
+  by_cases h : cr.type = "cost" <;> simp [h] <;> ring
+
+/-- the model's threshold is the spec's `want` -/
+theorem threshold_eq_spec_want (cr : Crit Rat) (rg : Rat × Rat) (r : Rat) :
+    thresholdFor cr rg r = Spec.C14.want cr rg r := by
+  obtain ⟨lo, hi⟩ := rg
+  rw [threshold_formula]
+  unfold Spec.C14.want
+  by_cases h : cr.type = "cost" <;> simp [h]
+
+/-- r = 0 is the worst end of the range, r = 1 the best one -/
+theorem threshold_at_ends (cr : Crit Rat) (lo hi : Rat) :
+    thresholdFor cr (lo, hi) 0 = (if cr.type = "cost" then hi else lo) ∧
+    thresholdFor cr (lo, hi) 1 = (if cr.type = "cost" then lo else hi) := by
+  rw [threshold_formula, threshold_formula]
+  by_cases h : cr.type = "cost" <;> simp [h]
+
+/-- a degenerate range (`min = max`) yields that value at every level -/
+theorem threshold_degenerate_range (cr : Crit Rat) (v r : Rat) : thresholdFor cr (v, v) r = v := by
+  rw [threshold_formula]; by_cases h : cr.type = "cost" <;> simp [h]
+
+/-- the declared `valuesRange` wins over the observed one -/
+theorem declared_range_preferred (alts : List (Alt Rat)) (cr : Crit Rat) (rg : Rat × Rat)
+    (h : cr.range = some rg) : valuesRange alts cr = Except.ok rg := by
+  unfold valuesRange; simp [h]
+
+/-- … otherwise the range is the minimum and maximum of the criterion's values over ALL alternatives
+    handed in (`Initialize` hands in `dmp.AllAlternatives()`): it bounds every value, both ends are attained -/
+theorem observed_range_is_min_max (alts : List (Alt Rat)) (cr : Crit Rat) (hnone : cr.range = none) (lo hi : Rat)
+    (hne : alts ≠ []) (h : valuesRange alts cr = Except.ok (lo, hi)) :
+    ∃ vs, alts.mapM (·.raw cr) = Except.ok vs ∧ (∀ v ∈ vs, lo ≤ v ∧ v ≤ hi) ∧ lo ∈ vs ∧ hi ∈ vs :=
+  valuesRange_observed alts cr hnone lo hi hne h
+
+/-- every level of a generated series lists exactly the criteria of the state, in order -/
+theorem level_keys (ranges : List (Crit Rat × (Rat × Rat))) (r : Rat) :
+    (levelAt ranges r).map (·.1) = ranges.map (·.1.id) := by
+  unfold levelAt; simp
+
+/-! ### explicit thresholds -/
+
+/-- `ThresholdSatisfactionLevels.Initialize` accepts the list iff every level has every criterion, and
+    then hands the levels out unchanged -/
+theorem explicit_levels_validated (d : DMP Rat) (ts : List (KMap Rat)) :
+    (explicitLevels d ts = Except.ok ts ↔ ∀ t ∈ ts, ∀ cr ∈ d.crit, t.has cr.id = true) ∧
+    (∀ lv, explicitLevels d ts = Except.ok lv → lv = ts) := by
+  unfold explicitLevels
+  by_cases h : (ts.all fun t => d.crit.all fun c => t.has c.id) = true
+  · simp only [h, if_true]
+    refine ⟨⟨fun _ => by simpa using h, fun _ => rfl⟩, fun lv hl => ?_⟩
+    simpa using hl.symm
+  · simp only [h]
+    refine ⟨⟨fun hh => by simp at hh, fun hh => absurd (by simpa using hh) h⟩, fun lv hl => by simp at hl⟩
+
+/-! ### wiring facts (regenerated from main.go on every run) -/
+
+/-- main.go hands the increasing sources to aspect elimination and the decreasing ones to satisfaction -/
+theorem wiring_aspect_gets_increasing : Facts.wiringAspectArgs.head? = some "increasingSatisfactionLevels" := by decide
+theorem wiring_satisfaction_gets_decreasing : Facts.wiringSatisfactionArgs.head? = some "decreasingSatisfactionLevels" := by decide
+
+/-- every registered source is known to the model, in the order main.go lists them -/
+theorem wiring_increasing_sources : sourcesOf Facts.wiringIncreasingLevels = [.coef .incMul, .coef .incAdd, .thresholds true] := by decide
+theorem wiring_decreasing_sources : sourcesOf Facts.wiringDecreasingLevels = [.coef .decMul, .coef .decSub, .thresholds false] := by decide
+
+/-- the sources aspect elimination can find generate increasing series only; satisfaction's decreasing only -/
+theorem aspect_sources_increasing : aspectSources.all (·.increasing) = true := by decide
+theorem satisfaction_sources_decreasing : satisfactionSources.all (fun s => !s.increasing) = true := by decide
+
+/-- identifiers are unambiguous within each registry (`Find` returns the first match) -/
+theorem source_names_distinct :
+    (aspectSources.map (·.name)).Nodup ∧ (satisfactionSources.map (·.name)).Nodup := by decide
+
+/-- the function names of the property text -/
+theorem source_names :
+    aspectSources.map (·.name) = ["idealMultipliedCoefficient", "idealAdditiveCoefficient", "thresholds"] ∧
+    satisfactionSources.map (·.name) = ["idealMultipliedCoefficient", "idealSubtractiveCoefficient", "thresholds"] := by decide
+
+/-! ### satisfiable hypotheses -/
+
+example : coefValid .incAdd (1/4 : Rat) 1 0 = true :=
+  (validation_accepts_exactly_documented_ranges _ _ _ _).mpr (by norm_num [CoefKind.inc])
+example : coefValid .decMul (1/2 : Rat) 1 (1/8) = true :=
+  (validation_accepts_exactly_documented_ranges _ _ _ _).mpr (by norm_num [CoefKind.inc])
+example : coefValid .decSub (1/2 : Rat) 1 0 = false := by
+  rw [Bool.eq_false_iff, ne_eq, validation_accepts_exactly_documented_ranges]; norm_num [CoefKind.inc]
+example : ∃ rs, coefSeries .incMul (1/4 : Rat) 1 0 (coefFuel .incMul (1/4 : Rat) 1 0) 0 = Except.ok rs ∧ rs.length ≤ 6 := by
+  obtain ⟨rs, h, hl⟩ := fuel_suffices .incMul (1/4) 1 0
+    ((validation_accepts_exactly_documented_ranges _ _ _ _).mpr (by norm_num [CoefKind.inc]))
+  refine ⟨rs, h, ?_⟩
+  have : coefFuel .incMul (1/4 : Rat) 1 0 = 6 := by
+    simp only [coefFuel, Num.one_rat, Num.floorInt_rat]
+    norm_num [Rat.floor_def]
+    rfl
+  omega
+
+/-- the constants and names this property depends on were re-read from the working tree on this run
+    (none fell back to its pinned value because its declaration could not be located) -/
+theorem facts_fresh : (Rdm.Facts.staleFacts.all fun n => !["levelsThresholds", "levelsIncreasingMul", "levelsAdditive", "levelsDecreasingMul", "levelsSubtractive", "wiringIncreasingLevels", "wiringDecreasingLevels", "wiringAspectArgs", "wiringSatisfactionArgs"].contains n) = true := by decide
+
 end Rdm.Props.C14
